@@ -19,7 +19,8 @@ PREP = 'mindsdb_sql/planner/query_prepare.py'
 INHERIT = {'C13.visit-order': 'C12.textual-order', 'C13.field-unvisited': 'C12.complete',
            'C13.class-dispatched': 'C12.complete', 'C13.visit-once': 'C12.bound-once',
            'C13.replace-exact': 'C12.replaced-in-place', 'C13.callback-first': 'C12.walker-protocol',
-           'C13.callback-once': 'C12.walker-protocol', 'C13.guarded-optional': None, 'C13.flags': None}
+           'C13.callback-once': 'C12.walker-protocol', 'C13.guarded-optional': None, 'C13.flags': None,
+           'C13.visit-unconditional': 'C12.complete', 'C13.replacement-kept': 'C12.replaced-in-place'}
 
 
 def _fn(tree, name):
